@@ -2482,6 +2482,7 @@ impl<'a> Gen<'a> {
                         self.trusted.push(d.trim_start().strip_prefix("trusted").unwrap_or("").trim().to_string());
                     }
                     "expanded" => self.expanded_directive(&parts)?,
+                    "phf_spec" => self.phf_spec_directive(&parts)?,
                     // `//@unless_expanded <Name>` ... `//@endunless`: template text used only while <Name> has NOT been
                     // taken from the expansion by an earlier //@expanded (stand-in declarations of generated items)
                     "unless_expanded" => {
@@ -2633,7 +2634,7 @@ impl<'a> Ctx<'a> {
         // keep only the item kinds the extractor can select (data items and impl blocks): their text is copied verbatim
         let mut ftext = String::new();
         for it in flat {
-            if matches!(it, syn::Item::Struct(_) | syn::Item::Enum(_) | syn::Item::Const(_) | syn::Item::Type(_) | syn::Item::Impl(_)) {
+            if matches!(it, syn::Item::Struct(_) | syn::Item::Enum(_) | syn::Item::Const(_) | syn::Item::Type(_) | syn::Item::Impl(_) | syn::Item::Static(_)) {
                 ftext.push_str(&text[br(it)]);
                 ftext.push_str("\n");
             }
@@ -2662,6 +2663,78 @@ impl<'a> Ctx<'a> {
 }
 
 impl<'a> Gen<'a> {
+    /// R8 (key lists): `//@phf_spec <STATIC> <spec_fn>` — the `entries: &[("KEY", Value), ..]` list of the generated
+    /// `static <STATIC>: phf::Map<&'static str, V>` (output of the crate's derive macro, from the macro expansion of the same
+    /// tree) is emitted as a ghost lookup table `pub open spec fn <spec_fn>(s: Seq<char>) -> Option<V>` (an if-else chain in
+    /// entry order; a key is spelled as `s.len() == n && s[0] == 'K' && ..`, values are copied verbatim). Nothing else of the static is used: that
+    /// phf's `get` finds exactly these entries stays an assumption of the unit (A5). Counted as R8_phf_entries.
+    fn phf_spec_directive(&mut self, parts: &[&str]) -> Result<(), String> {
+        let (name, spec_fn) = (parts.get(1).ok_or("//@phf_spec <STATIC> <spec_fn>")?, parts.get(2).ok_or("//@phf_spec <STATIC> <spec_fn>")?);
+        self.ctx.load_expanded()?;
+        let src = &self.ctx.sources[EXPANDED_FILE];
+        let mut found: Option<&syn::ItemStatic> = None;
+        for it in &src.ast.items {
+            if let syn::Item::Static(st) = it {
+                if st.ident == name {
+                    if found.is_some() {
+                        return Err(format!("//@phf_spec: static `{name}` is ambiguous in the expansion"));
+                    }
+                    found = Some(st);
+                }
+            }
+        }
+        let Some(st) = found else { return Err(format!("lost anchor: static `{name}` not found in the macro expansion")) };
+        let lost = |m: &str| format!("lost anchor: //@phf_spec {name}: {m}");
+        // value type: second generic argument of `phf::Map<K, V>`
+        let vty = match &*st.ty {
+            syn::Type::Path(tp) => match tp.path.segments.last().map(|s| (&s.ident, &s.arguments)) {
+                Some((id, syn::PathArguments::AngleBracketed(a))) if id == "Map" && a.args.len() == 2 => src.text[br(&a.args[1])].to_string(),
+                _ => return Err(lost("its type is not `phf::Map<K, V>`")),
+            },
+            _ => return Err(lost("its type is not `phf::Map<K, V>`")),
+        };
+        let Expr::Struct(es) = &*st.expr else { return Err(lost("its initializer is not a struct literal")) };
+        let Some(fv) = es.fields.iter().find(|f| matches!(&f.member, syn::Member::Named(n) if n == "entries")) else {
+            return Err(lost("no `entries` field"));
+        };
+        let arr = match &fv.expr {
+            Expr::Reference(r) => match &*r.expr {
+                Expr::Array(a) => a,
+                _ => return Err(lost("`entries` is not `&[..]`")),
+            },
+            _ => return Err(lost("`entries` is not `&[..]`")),
+        };
+        let mut body = String::new();
+        let mut n = 0usize;
+        for el in &arr.elems {
+            let Expr::Tuple(t) = el else { return Err(lost("an entry is not a `(key, value)` tuple")) };
+            if t.elems.len() != 2 {
+                return Err(lost("an entry is not a `(key, value)` tuple"));
+            }
+            let Expr::Lit(syn::ExprLit { lit: syn::Lit::Str(k), .. }) = &t.elems[0] else { return Err(lost("a key is not a string literal")) };
+            // `s == "KEY"` spelled as length + characters (no sequence literals: cheap for the solver)
+            let mut key = format!("s.len() == {}", k.value().chars().count());
+            for (i, c) in k.value().chars().enumerate() {
+                let _ = write!(key, " && s[{i}] == {c:?}");
+            }
+            let val = norm(&src.text[br(&t.elems[1])]);
+            let _ = writeln!(body, "    {}if {key} {{ Some({val}) }}", if n == 0 { "" } else { "else " });
+            n += 1;
+        }
+        if n == 0 {
+            return Err(lost("no entries"));
+        }
+        body.push_str("    else { None }\n");
+        let line = st.span().start().line;
+        self.ctx.cnt.bump("R8_phf_entries");
+        let start = self.cur_line();
+        self.emit(&format!("// <<< R8: the {n} (key, value) entries of `static {name}` (phf map generated by the crate's derive macro), taken from the macro expansion of the same tree"));
+        self.emit(&format!("pub open spec fn {spec_fn}(s: Seq<char>) -> Option<{vty}> {{\n{body}}}"));
+        let end = self.cur_line();
+        self.map.push(MapEntry { gen_start: start, gen_end: end, kind: "item", name: (*name).into(), file: EXPANDED_FILE.into(), src_line: line, props: vec![] });
+        Ok(())
+    }
+
     /// `//@expanded [<ItemName> [derive=..]]`
     fn expanded_directive(&mut self, parts: &[&str]) -> Result<(), String> {
         self.ctx.load_expanded()?;
